@@ -121,6 +121,10 @@ func (cs *chanState) sendReady(e *Exec, op *pendingOp) bool {
 	if len(cs.buf) < cs.cap {
 		return true
 	}
+	if len(cs.buf) > 0 {
+		// buffer full: a pending receiver will take from the buffer first, the sender has to wait for that
+		return false
+	}
 	t, _ := cs.waitingReceiver(e, op)
 	return t != nil
 }
